@@ -50,7 +50,7 @@ theorem issue_allocates {s s' : St} {x : Side} {k : Kind} (h : step s ⟨x, .iss
     ∧ (s'.get x.peer).inbox = (s.get x.peer).inbox ++ [.req (s.get x).seq]
     ∧ registered (s'.get x).callbacks (s.get x).seq = true := by
   obtain ⟨me, pr, w, hl, rfl⟩ := step_some s s' x _ h
-  simp only [lstep] at hl
+  simp only [lstep, lstepWith] at hl
   split at hl
   · cases hl
   simp only [Option.some.injEq, Prod.mk.injEq] at hl
@@ -86,7 +86,7 @@ theorem response_bears_own_seq {s s' : St} {x : Side} {o : Outcome} {v : Nat}
           ∧ (s'.get x).dead = false)
        ∨ (dispatchRequest o = .propagate ∧ s'.wire = s.wire ∧ (s'.get x).dead = true)) := by
   obtain ⟨me, pr, w, hl, rfl⟩ := step_some s s' x _ h
-  simp only [lstep] at hl
+  simp only [lstep, lstepWith] at hl
   split at hl
   · cases hl
   rename_i hdead
@@ -123,7 +123,7 @@ theorem routed {s s' : St} {x : Side} {k : RKind} {q v : Nat} {rest : List Msg}
         (s'.get x).results = (s.get x).results ∧ (s'.get x).callbacks = (s.get x).callbacks
         ∧ (s'.get x).dropped = (s.get x).dropped ++ [q]) := by
   obtain ⟨me, pr, w, hl, rfl⟩ := step_some s s' x _ h
-  simp only [lstep] at hl
+  simp only [lstep, lstepWith] at hl
   split at hl
   · cases hl
   split at hl
@@ -144,6 +144,51 @@ theorem routed {s s' : St} {x : Side} {k : RKind} {q v : Nat} {rest : List Msg}
     simp only [Option.some.injEq, Prod.mk.injEq] at hl
     obtain ⟨rfl, rfl, rfl⟩ := hl
     simp [hreg]
+
+/-- **routed (a response this side cannot decode).** A response whose payload cannot be decoded by the receiver (an
+exception class it cannot rebuild, a reference it no longer knows) still goes to the waiter registered under its
+number — as an error — and the waiter is removed; with no waiter it is dropped; nothing else changes and nothing
+leaves `serve()`.  (This rests on the obligation `decode_guarded`, measured on the live `_dispatch`.) -/
+theorem undecodable_response_is_delivered {s s' : St} {x : Side} {k : RKind} {q v : Nat} {rest : List Msg}
+    (h : step s ⟨x, .deliverFail⟩ = some s') (hin : (s.get x).inbox = .resp k q v :: rest) :
+    (s'.get x).inbox = rest ∧ s'.get x.peer = s.get x.peer ∧ s'.wire = s.wire ∧ (s'.get x).dead = (s.get x).dead ∧
+    (if registered (s.get x).callbacks q then
+        (s'.get x).results = (s.get x).results ++ [(q, k, v)]
+        ∧ (s'.get x).undecodable = (s.get x).undecodable ++ [q]
+        ∧ (s'.get x).callbacks = unregister q (s.get x).callbacks
+        ∧ registered (s'.get x).callbacks q = false
+     else
+        (s'.get x).results = (s.get x).results ∧ (s'.get x).callbacks = (s.get x).callbacks
+        ∧ (s'.get x).dropped = (s.get x).dropped ++ [q]) := by
+  obtain ⟨me, pr, w, hl, rfl⟩ := step_some s s' x _ h
+  simp only [lstep, lstepWith, decode_guarded, if_true] at hl
+  split at hl
+  · cases hl
+  split at hl
+  · cases hl
+  rw [hin] at hl
+  simp only at hl
+  split at hl
+  · rename_i hreg
+    simp only [Option.some.injEq, Prod.mk.injEq] at hl
+    obtain ⟨rfl, rfl, rfl⟩ := hl
+    simp only [St.put_get_self, St.put_get_peer, St.put_wire, hreg, if_true, true_and]
+    apply (not_registered_iff _ _).mpr
+    simp [nKey_unregister]
+  · rename_i hreg
+    simp only [Option.some.injEq, Prod.mk.injEq] at hl
+    obtain ⟨rfl, rfl, rfl⟩ := hl
+    simp [hreg]
+
+/-- what the code did before `_dispatch` guarded the decoding (the machine with the guard switched off): the response
+is consumed, nobody is given anything, the waiter stays registered for ever — the requester of an answered request
+never gets its response.  This is the counterexample the obligation `decode_guarded` excludes. -/
+theorem unguarded_decode_loses_response :
+    ∃ s, runWith false (St.init 0 0)
+        [⟨.A, .issue .async⟩, ⟨.B, .deliver⟩, ⟨.B, .finish .raise 7⟩, ⟨.A, .deliverFail⟩] = some s
+      ∧ s.b.answered = [(0, .exc, 7)] ∧ s.a.inbox = [] ∧ s.a.results = [] ∧ s.a.callbacks = [(0, .async)]
+      ∧ s.a.dropped = [] :=
+  ⟨_, rfl, rfl, rfl, rfl, rfl, rfl⟩
 
 /-- **routed (over a whole run).** Each of a side's requests is either still registered or has been given
 exactly one outcome, never both and never two; every outcome given is a response the peer produced for that
@@ -229,12 +274,12 @@ theorem stays_usable (sa sb : Nat) (es : List Ev) (s : St) (h : run (St.init sa 
   have hp := (hl.get x.peer).1
   refine ⟨?_, ?_, ?_⟩
   · intro k
-    simp [step, lstep, hx, hp]
+    simp [step, lstep, lstepWith, hx, hp]
   · intro r rest o v hst
-    simp only [step, lstep, hx, hp, hst, Bool.or_self, Bool.false_eq_true, if_false]
+    simp only [step, lstep, lstepWith, hx, hp, hst, Bool.or_self, Bool.false_eq_true, if_false]
     cases dispatchRequest o <;> simp
   · intro hcs hne
-    simp only [step, lstep, hx, hp, hcs, Bool.or_self, Bool.false_eq_true, if_false, Bool.not_true]
+    simp only [step, lstep, lstepWith, hx, hp, hcs, Bool.or_self, Bool.false_eq_true, if_false, Bool.not_true]
     cases hin : (s.get x).inbox with
     | nil => exact absurd hin hne
     | cons m rest =>
@@ -281,7 +326,7 @@ theorem send_failure_unregisters {s s' : St} (h : Reach s) {x : Side} (hs : step
     ∧ (s'.get x).issued = (s.get x).issued ∧ s'.wire = s.wire ∧ s'.get x.peer = s.get x.peer := by
   have d := h.inv.dir x
   obtain ⟨me, pr, w, hl, rfl⟩ := step_some s s' x _ hs
-  simp only [lstep] at hl
+  simp only [lstep, lstepWith] at hl
   split at hl
   · cases hl
   simp only [Option.some.injEq, Prod.mk.injEq] at hl
@@ -330,6 +375,14 @@ example : ∃ s, run (St.init 0 0) sample = some s
     ∧ s.b.executed = [2, 3, 0, 5, 6] ∧ s.a.executed = [0]
     ∧ s.a.stack = [] ∧ s.b.stack = [] ∧ s.a.seq = 7 ∧ s.a.issued = [0, 2, 3, 4, 5, 6] :=
   ⟨_, rfl, rfl, rfl, rfl, rfl, rfl, rfl, rfl, rfl, rfl, rfl, rfl⟩
+
+/-- a response the requester cannot decode (e.g. an ExceptionGroup) arriving while another wait loop is serving:
+it reaches its own waiter, the other request is unaffected -/
+example : ∃ s, run (St.init 0 0) [⟨.A, .issue .async⟩, ⟨.A, .issue .sync⟩, ⟨.B, .deliver⟩, ⟨.B, .finish .raise 3⟩,
+      ⟨.B, .deliver⟩, ⟨.B, .finish .value 4⟩, ⟨.A, .deliverFail⟩, ⟨.A, .deliver⟩] = some s
+    ∧ s.a.results = [(0, .exc, 3), (1, .reply, 4)] ∧ s.a.undecodable = [0] ∧ s.a.callbacks = [] ∧ s.a.stack = [] := by
+  simp only [run, step, lstep, decode_guarded]
+  exact ⟨_, rfl, rfl, rfl, rfl, rfl⟩
 
 example : ∃ s, run (St.init 0 0) sample = some s ∧ Good s := by
   have h : ∃ s, run (St.init 0 0) sample = some s := ⟨_, rfl⟩
